@@ -83,7 +83,7 @@ impl Check for C07 {
             .map(|_| {
                 let h = g.range(0, nh - 1);
                 let port = if g.chance(50) { *g.pick(&[0u64, 1, 80, 255, 256, 443, 65_535]) } else { g.range(0, 65_535) };
-                let via = *g.pick(&["direct", "socks5", "socks5", "http", "udp", "raw", "burst"]);
+                let via = *g.pick(&["direct", "socks5", "socks5", "http", "http-plain", "udp", "raw", "burst"]);
                 // burst: 2-3 requests for the same host with different ports started at the same instant
                 let more: Vec<u64> = (0..g.range(1, 2)).map(|_| g.range(1, 65_535)).collect();
                 json!({"host": h, "port": port, "more_ports": more, "via": via, "gap_ms": *g.pick(&[0u64, 0, 1_000, 59_000, 61_000, 150_000]), "pieces": g.range(1, 6), "pause_ms": if g.chance(20) { *g.pick(&[6_000u64, 20_000]) } else { 0 }})
@@ -208,6 +208,24 @@ impl Check for C07 {
                             Err(e) => Err(e),
                         }
                     }
+                    "http-plain" => {
+                        // (an explicit port: default ports are C17's business; names longer than a header line
+                        // allows are not the point here)
+                        let authority = if host.contains(':') { format!("[{}]:{}", host, port) } else { format!("{}:{}", host, port) };
+                        let decoys: Vec<String> = match r["pieces"].as_u64().unwrap_or(0) % 4 {
+                            0 => vec![],
+                            1 => vec!["X-Forwarded-Host: decoy.invalid:1".to_string()],
+                            2 => vec!["Referer: http://localhost:9/".to_string(), "X-Host: 192.0.2.200:2".to_string()],
+                            _ => vec!["User-Agent: ghost:3".to_string()],
+                        };
+                        match http_plain(&authority, r["pieces"].as_u64().unwrap_or(0) >= 4, &decoys).await {
+                            Ok(s) => {
+                                kept.push(s);
+                                Ok(())
+                            }
+                            Err(e) => Err(e),
+                        }
+                    }
                     "udp" => {
                         let target = SocketAddr::new(allowed[0], port);
                         match timeout(Duration::from_secs(120), client.create_udp_proxy("127.0.0.1:0", target)).await {
@@ -287,7 +305,7 @@ impl Check for C07 {
         out
     }
     fn rule(&self) -> &'static str {
-        "one case = a history of 1-12 sequential requests over 1-4 hosts (IPv4 incl. 0.0.0.0/255.255.255.255/high octets, IPv6 incl. ::/mapped/full length, names of length 1,2,63,64,253,254,255 and random with 1-3 table addresses) x ports {0,1,80,255,256,443,65535,random} issued through create_proxy_stream, the SOCKS5 front-end, HTTP CONNECT, a UDP association, or a raw TLS client that spreads the destination over 1-6 PSH frames, with virtual gaps {0,1s,59s,61s,150s} (inside and beyond the 60 s cache lifetime), default or tiny-size padding scheme; oracle = the simulated network's connect / datagram log after each request; every case is non-trivial; distinct = distinct (plan hash, poll-order fingerprint)"
+        "one case = a history of 1-12 sequential requests over 1-4 hosts (IPv4 incl. 0.0.0.0/255.255.255.255/high octets, IPv6 incl. ::/mapped/full length, names of length 1,2,63,64,253,254,255 and random with 1-3 table addresses) x ports {0,1,80,255,256,443,65535,random} issued through create_proxy_stream, the SOCKS5 front-end, HTTP CONNECT, a plain HTTP request (origin or absolute form, with header lines that merely look like a Host header placed before the real one), a UDP association, or a raw TLS client that spreads the destination over 1-6 PSH frames, with virtual gaps {0,1s,59s,61s,150s} (inside and beyond the 60 s cache lifetime), default or tiny-size padding scheme; oracle = the simulated network's connect / datagram log after each request; every case is non-trivial; distinct = distinct (plan hash, poll-order fingerprint)"
     }
     fn real_components(&self) -> Vec<&'static str> {
         vec!["Client::create_proxy_stream / create_udp_proxy / session pool", "SOCKS5 front-end", "HTTP proxy front-end (CONNECT)", "Server::listen / handle_connection / TcpProxyHandler::handle_stream / read_socks_addr", "resolve_host_with_cache + DNS cache (virtual clock)", "udp_proxy::handle_udp_over_tcp / read_initial_request", "rustls both ways", "Session / Stream / codec / padding"]
